@@ -864,6 +864,10 @@ Proof. reflexivity. Qed.
 Lemma render_nil : forall ns, render ns [] = [].
 Proof. reflexivity. Qed.
 
+Ltac rnorm :=
+  repeat (rewrite render_app || rewrite render_cons || rewrite render_nil);
+  cbn [render_item spell]; repeat rewrite <- app_assoc; cbn [app]; rewrite ?app_nil_r.
+
 Lemma render_sepl : forall ns sep xs,
   render ns (sepl sep xs) = sep_by (render ns sep) (map (render ns) xs).
 Proof.
@@ -881,9 +885,9 @@ Lemma seq_text : forall {A} (pp : A -> list N) open close extra cs,
   = open ++ sep_by [44; 32] (map pp cs) ++ (if extra && nonempty cs then [44; 32] else []) ++ close.
 Proof.
   intros A pp open close extra cs. destruct cs as [|c cs].
-  - cbn [length Nat.eqb seq_display inter_out map sep_by nonempty app]. rewrite andb_false_r, app_nil_r. reflexivity.
+  - cbn [length Nat.eqb seq_display inter_out map sep_by nonempty app]. rewrite andb_false_r. cbn [app]. apply app_nil_r.
   - rewrite (inter_out_sep pp _ [44; 32] ((if extra then [44; 32] else []) ++ close) (length (c :: cs))).
-    + cbn [length Nat.eqb seq_display nonempty]. rewrite andb_true_r, app_nil_r, <- !app_assoc. reflexivity.
+    + cbn [length Nat.eqb nonempty]. unfold seq_display. rewrite andb_true_r, app_nil_r. reflexivity.
     + intros j Hj. destruct j as [|j]; [lia|]. unfold seq_display.
       replace (Nat.eqb (S j) (length (c :: cs))) with false by (symmetry; apply Nat.eqb_neq; lia).
       cbn [negb orb]. apply app_nil_r.
@@ -899,7 +903,7 @@ Section MachineProofs.
   Definition adisp (it : vpo_item aty) : list N := let '(node, n, _) := it in aty_display ns node n.
 
   Lemma aty_count_eq : forall t, aty_count t = S (list_sum (map aty_count (aty_children t))).
-  Proof. destruct t; cbn [aty_count aty_children map list_sum fold_right]; lia. Qed.
+  Proof. destruct t; try reflexivity; cbn [aty_count aty_children map list_sum fold_right]; lia. Qed.
 
   Local Notation atxt := (vtxt aty_children aty_count adisp).
 
@@ -912,30 +916,27 @@ Section MachineProofs.
   Proof.
     induction t as [n|n|a b IHa IHb|a IHa| |k|ts IHts|a n IHa|a k IHa] using aty_ind';
       rewrite atxt_unfold; cbn [aty_children inter_out aty_display lay_aty].
-    - cbn. reflexivity.
-    - cbn. reflexivity.
-    - rewrite IHa, IHb. rewrite !render_cons, !render_app, !render_cons. cbn [render_item spell render app].
-      rewrite <- ?app_assoc. reflexivity.
-    - rewrite IHa. rewrite !render_cons, !render_app. cbn. rewrite <- ?app_assoc. reflexivity.
-    - cbn. reflexivity.
-    - cbn. reflexivity.
-    - rewrite (map_ext_Forall _ _ _ IHts) at 0.
-      destruct ts as [|a [|b ts]].
+    - rnorm. reflexivity.
+    - rnorm. reflexivity.
+    - rewrite IHa, IHb. rnorm. reflexivity.
+    - rewrite IHa. rnorm. reflexivity.
+    - rnorm. reflexivity.
+    - rnorm. reflexivity.
+    - destruct ts as [|a [|b ts]].
       + reflexivity.
       + inversion IHts as [|x l Ha _]; subst. cbn [inter_out aty_display length Nat.eqb map sepl one app].
-        rewrite Ha. rewrite !render_cons, !render_app. cbn. rewrite <- ?app_assoc. reflexivity.
+        rewrite Ha. rnorm. reflexivity.
       + rewrite (inter_out_sep atxt _ [44; 32] [41] (length (a :: b :: ts))).
-        * rewrite (map_ext_Forall _ _ _ IHts).
-          rewrite render_cons, render_app, render_sepl, map_map. cbn [one app render render_item spell flat_map].
-          reflexivity.
-        * intros j Hj. destruct j as [|j]; [lia|].
+        * rewrite (map_ext_Forall _ _ _ IHts). cbn [one]. rnorm.
+          rewrite render_sepl, map_map. reflexivity.
+        * intros j Hj. destruct j as [|j]; [lia|]. cbn beta.
           replace (Nat.eqb (S j) (length (a :: b :: ts))) with false by (symmetry; apply Nat.eqb_neq; lia).
           reflexivity.
         * cbn [length]. rewrite Nat.eqb_refl. reflexivity.
         * reflexivity.
         * discriminate.
-    - rewrite IHa. rewrite !render_cons, !render_app. cbn. rewrite <- ?app_assoc. reflexivity.
-    - rewrite IHa. rewrite !render_cons, !render_app. cbn. rewrite <- ?app_assoc. reflexivity.
+    - rewrite IHa. rnorm. reflexivity.
+    - rewrite IHa. rnorm. reflexivity.
   Qed.
 
   (* MAIN THEOREM (types): the machine of Display for AliasedType prints the structural text *)
